@@ -35,6 +35,15 @@ fn synth(contents: &Contents, tok: &str, seq: usize) -> Option<(String, String)>
             let p: Vec<&str> = k.split(':').collect(); format!("{}231225{}1234,56", p[0], p.get(1).unwrap_or(&"USD"))
         }
         ("90C", Some(k)) | ("90D", Some(k)) => format!("5{}12345,67", k),
+        ("72", Some(k)) => match k {
+            "REJT" => "/REJT/AC01".to_string(),
+            "RETN" => "/RETN/AC01".to_string(),
+            "lower" => "/rejt/ac01".to_string(),
+            "open" => "/REJT".to_string(),
+            "second" => "/ACC/INFORMATION\n/RETN/AC01".to_string(),
+            "inline" => "/ACC/SEE /REJT/ INLINE".to_string(),
+            _ => "/ACC/PLAIN INFORMATION".to_string(),
+        },
         ("59", Some("acct")) => "/98765432\nJANE SMITH\n789 MAIN STREET".to_string(),
         ("59", Some(_)) => "JANE SMITH\n789 MAIN STREET".to_string(),
         ("37H", Some(k)) => { let p: Vec<&str> = k.split(':').collect(); format!("{}{}{}", p[0], p.get(1).unwrap_or(&""), if p.get(2) == Some(&"0") { "0,0000" } else { "2,5000" }) }
